@@ -136,8 +136,18 @@ def gcpointOK (f : Fn) (g : GcPoint) : Bool :=
   g.offsets.all (slotOK f.frame (extraAt f g.pc)) &&
   g.interior.all (interiorOK f.frame (extraAt f g.pc))
 
+/-- the runtime looks the return address of such a call up in the code map: a collection walking the suspended frame
+(`needsMap`) or the trap / stack-overflow handler naming the failing function -/
+def CallClass.lookedUp (c : CallClass) : Bool :=
+  c.needsMap || (match c with | .trap | .stackOverflow => true | _ => false)
+
+/-- A return address that is looked up must lie STRICTLY inside its function: a call that is the very last instruction
+of a function whose code fills its aligned slot exactly returns to the first byte of the NEXT function, and the code
+map would attribute the frame to that neighbour (the baseline generator emits a filler after its out-of-line trap calls
+for this reason). -/
 def callOK (f : Fn) (c : Call) : Bool :=
-  if f.kind = .optimized && c.cls.needsMap then (gcpointFor f c.ret).isSome else true
+  (if f.kind = .optimized && c.cls.lookedUp then decide (c.ret < f.stop - f.start) else true) &&
+  (if f.kind = .optimized && c.cls.needsMap then (gcpointFor f c.ret).isSome else true)
 
 def kindWalksAtZero : Kind → Bool
   | .runtimeEntry | .unreachable | .stackOverflow | .fatalError => true
@@ -172,7 +182,9 @@ def explain (a : Artifact) : String :=
           | none => "gcpoint"
         else if !f.calls.all (callOK f) then
           match f.calls.find? (fun c => !callOK f c) with
-          | some c => s!"call returning to offset {c.ret} ({repr c.cls}) has no stack map"
+          | some c =>
+            if c.ret < f.stop - f.start then s!"call returning to offset {c.ret} ({repr c.cls}) has no stack map"
+            else s!"call ({repr c.cls}) returns to offset {c.ret} = end of the function: the code map attributes that address to the next function"
           | none => "call"
         else if kindWalksAtZero f.kind && !(gcpointFor f 0).isSome then "trampoline without stack map at offset 0"
         else if !nonDecreasing (f.locs.map (·.pc)) then "location table not ordered"
